@@ -626,7 +626,7 @@ def gen_world(rng, n_modules=2, depth=3, real=False, notd=False,
               levels=(1, 2, 3), layer_sets=None):
     layers = [dict(l) for l in rng.choice(layer_sets or LAYER_SETS)]
     if notd and layers:
-        rng.choice(layers)['notd'] = True
+        (layers[0] if notd == 'first' else rng.choice(layers))['notd'] = True
     lnames = [l['name'] for l in layers]
     mods = []
     for i in range(n_modules):
